@@ -403,6 +403,13 @@ def HW.set (w : HW) (k v : Bytes) : HW := { w with header := (k, v) :: w.header.
 /-- `w.Write(data)` -/
 def HW.write (w : HW) (b : Bytes) : HW := { w with log := w.log ++ [.write b] }
 
+/-- a Go value of type `any` as a type switch sees it: a string, a byte slice, or a value of some other type (identity) -/
+inductive AnyV
+  | str (s : Bytes)
+  | bytes (b : Bytes)
+  | other (id : Nat)
+  deriving DecidableEq, Repr, Inhabited
+
 /-- what `render.Auto` calls: the Accept header of the request, `httpreq.ParseAccept`, and the three renderers it hands
     the value to (each returns the writer afterwards and whether it returned an error) -/
 structure RAEnv (ω : Type) where
